@@ -89,6 +89,61 @@ func (o *lifeOracle) c11(e *Env, si *StepInfo) {
 			}
 		}
 	}
+	if si.Kind == "end" && prev.Order != cur.Order {
+		// release: at the end of the paid term the provider gets its capacity and collateral back
+		// and its income stops (per provider, over the shards released at their scheduled end in
+		// this block)
+		type rel struct {
+			size   int64
+			pledge  sdk.Int
+			ids     []uint64
+			natural bool
+		}
+		rels := map[string]*rel{}
+		for _, sid := range shardIDs(prev.Order) {
+			ps := prev.Order.Shards[sid]
+			info := t.Shards[sid]
+			if _, still := cur.Order.Shards[sid]; still || ps.Status != ordertypes.ShardCompleted || info == nil || info.MaxPledge.IsNil() {
+				continue
+			}
+			r := rels[ps.Sp]
+			if r == nil {
+				r = &rel{pledge: sdk.ZeroInt()}
+				rels[ps.Sp] = r
+			}
+			// (shards of the same provider released in this block for another reason - a timeout scan
+			// giving an order up - are part of the same balance; the check runs for providers with at
+			// least one shard at its scheduled end)
+			if info.ExpectedEnd == si.Height {
+				r.natural = true
+			}
+			r.size += int64(ps.Size_)
+			r.pledge = r.pledge.Add(info.MaxPledge)
+			r.ids = append(r.ids, sid)
+		}
+		for _, sp := range sortedKeys(rels) {
+			r := rels[sp]
+			pp, ok1 := prev.Node.Pledges[sp]
+			cp, ok2 := cur.Node.Pledges[sp]
+			if !ok1 || !ok2 || !r.natural {
+				continue
+			}
+			e.probe("shard_released_at_end_of_term")
+			if pp.UsedStorage-cp.UsedStorage != r.size {
+				o.once(e, "C11", "C11.release", lab, "capacity-not-returned", sp, fmt.Sprintf("shards %v of provider %s (%d bytes) reached the end of their paid term at height %d but its used capacity went %d -> %d", r.ids, fmtAddr(sp), r.size, si.Height, pp.UsedStorage, cp.UsedStorage))
+			}
+			back := sdk.ZeroInt()
+			for _, ed := range si.Edges {
+				if ed.From == modAddr("node") && ed.To == sp {
+					back = back.Add(ed.Amt)
+				}
+			}
+			writtenOff := debtOf(prev, sp).Sub(debtOf(cur, sp))
+			if !back.Add(writtenOff).Equal(r.pledge) {
+				o.once(e, "C11", "C11.release", lab, "collateral-not-returned", sp, fmt.Sprintf("shards %v of provider %s reached the end of their paid term at height %d: collateral taken for them %s, returned %s plus %s of recorded debt written off", r.ids, fmtAddr(sp), si.Height, r.pledge, back, writtenOff))
+			}
+		}
+	}
 	if si.Kind == "end" {
 		// late: nothing completed outlives its expected end
 		for _, sid := range shardIDs(cur.Order) {
